@@ -299,10 +299,28 @@ Definition d_join (args : list val) (obs : val) : verdict :=
   | _, _ => bad_case
   end.
 
+(* ExpandObject: the caller keeps the parsed object: it is expanded, read back (ID(), accessors, FieldParams()) and expanded again; observed
+   [first result; [ID; accessors; FieldParams]; second result]. The expansion is a function of the ID's VALUE and must leave the object
+   alone: both results are judged as the plain expansion of the argument string, the read-back as the plain parse/print of it. A parse
+   error or a refused size is observed and judged exactly as in the plain entry. *)
+Definition d_expand_object (args : list val) (obs : val) : verdict :=
+  match args, obs with
+  | [VS s], VL [(VL _) as o1; VL [VS id; acc; fp]; (VL _) as o2] =>
+      let v1 := d_expand [VS s] o1 in
+      let vb := d_parseprint [VS s] (VL [VS id; acc; fp]) in
+      let v2 := d_expand [VS s] o2 in
+      if String.eqb (v_class v1) "bad-case" || String.eqb (v_class vb) "bad-case" || String.eqb (v_class v2) "bad-case" then bad_case
+      else if String.eqb (v_class v1) "skipped" || String.eqb (v_class v2) "skipped" then bad_case   (* a refused size is observed as VB false, not as a triple *)
+      else mkv (v_corr v1 && v_corr vb && v_corr v2) (v_prop v1 && v_prop vb && v_prop v2) "-" (VL [v_model v1; v_model vb; v_model v2])
+  | [VS s], _ => d_expand [VS s] obs
+  | _, _ => bad_case
+  end.
+
 Definition base_C10 : table :=
   [("ConvertSpatialIdsToExtendedSpatialIds", fun _ => d_s2e); ("ConvertExtendedSpatialIdsToSpatialIds", fun _ => d_e2s);
    ("NotationRoundTrip", fun _ => d_roundtrip); ("ParsePrint", fun _ => d_parseprint);
-   ("ConvertExtendedSpatialIDToSpatialIDs", fun _ => d_expand); ("GetVoxelIDfromSpatialID", fun _ => d_voxel);
+   ("ConvertExtendedSpatialIDToSpatialIDs", fun _ => d_expand); ("ExpandObject", fun _ => d_expand_object);
+   ("GetVoxelIDfromSpatialID", fun _ => d_voxel);
    ("ResetSequence", fun _ => d_resetseq); ("ObjectSetters", fun _ => d_setters); ("ObjectAliasing", fun _ => d_alias);
    ("ParseInt", fun _ => d_parseint); ("Atoi", fun _ => d_parseint); ("FormatInt", fun _ => d_formatint); ("Itoa", fun _ => d_formatint);
    ("Split", fun _ => d_split); ("Join", fun _ => d_join)].
@@ -340,3 +358,30 @@ Definition d_expandseq (oracle : oracle_t) (args : list val) (obs : val) : verdi
 
 Definition table_C10 : table :=
   (base_C10 ++ [("ExpandSequence", d_expandseq); ("CallSequence", d_callseq)])%list.
+
+(* What the ExpandObject entry demands (soundness of the entry's shape): a triple is accepted only if BOTH expansions are accepted as the
+   plain expansion of the argument string and the object read back between them is accepted as the plain parse/print of that string —
+   i.e. the caller's object is unchanged and the second call sees the same ID. *)
+Lemma expand_object_accepts_only_unchanged_objects s l1 id acc fp l2 :
+  v_prop (d_expand_object [VS s] (VL [VL l1; VL [VS id; acc; fp]; VL l2])) = true ->
+  v_prop (d_expand [VS s] (VL l1)) = true /\ v_prop (d_parseprint [VS s] (VL [VS id; acc; fp])) = true /\ v_prop (d_expand [VS s] (VL l2)) = true.
+Proof.
+  cbv beta iota zeta delta [d_expand_object].
+  set (v1 := d_expand [VS s] (VL l1)). set (vb := d_parseprint [VS s] (VL [VS id; acc; fp])). set (v2 := d_expand [VS s] (VL l2)).
+  destruct (_ || _ || _); [intros H; vm_compute in H; discriminate H|].
+  destruct (_ || _); [intros H; vm_compute in H; discriminate H|].
+  cbn [v_prop mkv]. intros H. apply andb_prop in H. destruct H as [H H2]. apply andb_prop in H. destruct H as [H1 Hb]. auto.
+Qed.
+Lemma expand_object_other_shapes s obs :
+  (forall l1 id acc fp l2, obs <> VL [VL l1; VL [VS id; acc; fp]; VL l2]) -> d_expand_object [VS s] obs = d_expand [VS s] obs.
+Proof.
+  intros H. unfold d_expand_object.
+  destruct obs as [| | | |l| | | |]; try reflexivity.
+  destruct l as [|o1 [|b [|o2 [|x r]]]]; try reflexivity.
+  all: destruct o1; try reflexivity.
+  all: try (destruct b as [| | | |lb| | | |]; try reflexivity).
+  all: try (destruct lb as [|i0 [|acc [|fp [|y r']]]]; try reflexivity).
+  all: try (destruct i0; try reflexivity).
+  all: try (destruct o2; try reflexivity).
+  exfalso. eapply H. reflexivity.
+Qed.
